@@ -497,3 +497,111 @@ pub fn t_checked_pow(a: i128, b: i128) -> Option<i128> {
     7i128.checked_pow((a as u32) % 60)
 }
 
+#[inline(never)]
+pub fn t_f64_gt(a: i128, b: i128) -> bool {
+    let _ = b;
+    f64::from_bits(a as u64) > f64::from_bits(b as u64)
+}
+
+#[inline(never)]
+pub fn t_f64_le(a: i128, b: i128) -> bool {
+    let _ = b;
+    f64::from_bits(a as u64) <= f64::from_bits(b as u64)
+}
+
+#[inline(never)]
+pub fn t_f64_eq(a: i128, b: i128) -> bool {
+    let _ = b;
+    f64::from_bits(a as u64) == f64::from_bits(b as u64)
+}
+
+#[inline(never)]
+pub fn t_f64_ne(a: i128, b: i128) -> bool {
+    let _ = b;
+    f64::from_bits(a as u64) != f64::from_bits(b as u64)
+}
+
+#[inline(never)]
+pub fn t_f64_lt(a: i128, b: i128) -> bool {
+    let _ = b;
+    f64::from_bits(a as u64) < f64::from_bits(b as u64)
+}
+
+#[inline(never)]
+pub fn t_f32_gt(a: i128, b: i128) -> bool {
+    let _ = b;
+    f32::from_bits(a as u32) > f32::from_bits(b as u32)
+}
+
+#[inline(never)]
+pub fn t_f32_ge(a: i128, b: i128) -> bool {
+    let _ = b;
+    f32::from_bits(a as u32) >= f32::from_bits(b as u32)
+}
+
+#[inline(never)]
+pub fn t_f64_to_i128(a: i128, b: i128) -> i128 {
+    let _ = b;
+    f64::from_bits(a as u64) as i128
+}
+
+#[inline(never)]
+pub fn t_f64_to_u8(a: i128, b: i128) -> i128 {
+    let _ = b;
+    (f64::from_bits(a as u64) as u8) as i128
+}
+
+#[inline(never)]
+pub fn t_f32_to_i128(a: i128, b: i128) -> i128 {
+    let _ = b;
+    f32::from_bits(a as u32) as i128
+}
+
+#[inline(never)]
+pub fn t_f64_to_i64(a: i128, b: i128) -> i128 {
+    let _ = b;
+    (f64::from_bits(a as u64) as i64) as i128
+}
+
+#[inline(never)]
+pub fn t_i128_to_f64(a: i128, b: i128) -> i128 {
+    let _ = b;
+    (a as f64).to_bits() as i128
+}
+
+#[inline(never)]
+pub fn t_i128_to_f32(a: i128, b: i128) -> i128 {
+    let _ = b;
+    (a as f32).to_bits() as i128
+}
+
+#[inline(never)]
+pub fn t_u64_to_f64(a: i128, b: i128) -> i128 {
+    let _ = b;
+    ((a as u64) as f64).to_bits() as i128
+}
+
+#[inline(never)]
+pub fn t_f64_is_nan(a: i128, b: i128) -> bool {
+    let _ = b;
+    f64::from_bits(a as u64).is_nan()
+}
+
+#[inline(never)]
+pub fn t_f64_is_inf(a: i128, b: i128) -> bool {
+    let _ = b;
+    f64::from_bits(a as u64).is_infinite()
+}
+
+#[inline(never)]
+pub fn t_f64_gt_max(a: i128, b: i128) -> bool {
+    let _ = b;
+    f64::from_bits(a as u64) > i128::MAX as f64
+}
+
+#[inline(never)]
+pub fn t_f64_lt_min(a: i128, b: i128) -> bool {
+    let _ = b;
+    f64::from_bits(a as u64) < i128::MIN as f64
+}
+
